@@ -7,14 +7,17 @@ from msmart.const import DISCOVERY_MSG
 from msmart.device.AC.device import AirConditioner as AC
 
 
-def one(ctx, stream, rng, version, device_id, port, dtype, upper, src_ip, reported_ip, single=False):
+def one(ctx, stream, rng, version, device_id, port, dtype, upper, src_ip, reported_ip, single=False, auto_connect=False):
     sn = ascii_bytes(rng, 32)
     hh = ("%02X" if upper else "%02x") % dtype
     name = b"net_" + hh.encode() + b"_" + ascii_bytes(rng, rng.randrange(0, 12))
     pkt = discsim.spec_reply(ctx, rng, version, device_id, reported_ip, port, sn, name, extra=rb(rng, rng.randrange(0, 20)))
-    out = discsim.run_discover([(0.1, src_ip, rng.choice([6445, 6445, 50000]), pkt)], single=single, target=src_ip if single else "255.255.255.255")
+    out = discsim.run_discover([(0.1, src_ip, rng.choice([6445, 6445, 50000]), pkt)], single=single, target=src_ip if single else "255.255.255.255",
+                               auto_connect=auto_connect)
     inp = {"version": version, "id": device_id, "port": port, "type": dtype, "src": src_ip, "reported": reported_ip,
            "name": name.decode(), "packet": hx(pkt)}
+    if auto_connect:
+        inp["auto_connect"] = True
     if "exc" in out:
         ctx.violate(stream, inp, type(out["exc"]).__name__, "one device", "discover() raised on a well-formed reply")
         ctx.case(stream, key=hx(pkt))
@@ -82,6 +85,12 @@ def run(ctx):
         for src in ("10.9.8.7", "10.9.8.8"):
             for _scan in range(3):
                 one(ctx, "rescan", rng, version, rng.randrange(2 ** 48), 6444, 0xAC, False, src, src, single=(_scan == 2))
+    # with the DEFAULT auto-connect (V2 units need no cloud): a unit of any appliance type is still reported with its
+    # identity - whether or not it can be refreshed (nothing listens on its TCP port here; generic devices cannot refresh)
+    for dtype in [0xAC, 0xA1, 0xDB, 0xE1, 0x00, 0xFF] + ([rng.randrange(256) for _ in range(4)] if not thorough else list(range(0, 256, 7))):
+        src = f"10.77.{rng.randrange(256)}.{rng.randrange(1, 255)}"
+        one(ctx, "auto_connect_v2", rng, 2, rng.randrange(2 ** 48), 6444, dtype, rng.random() < 0.5, src, src,
+            single=rng.random() < 0.3, auto_connect=True)
     # ... also when the host keeps its device id and address but answers differently from scan to scan (new port,
     # name, serial number, protocol version after a firmware update / re-provisioning): each scan reports what THAT
     # scan's reply says
